@@ -1,14 +1,24 @@
 (* C14 -- Grouped aggregation is correct and independent of partitioning.
-   Only statements, each closed by [exact] of a lemma from PV.Proofs.Agg*. *)
-From Coq Require Import ZArith List Bool.
-Require Import PV.Model.Agg PV.Proofs.AggGrouped.
+   Only statements, each closed by [exact] of a lemma from PV.Proofs.Agg*.
+
+   Structure of the argument (all over the model PV.Model.Agg of GroupedStats / RDD.aggregate / the aggregate classes):
+   1. generic driver: for EVERY list of partitions the grouped result is, group by group and in first-seen order,
+      the fold of the aggregator over the group's own rows -- provided mergeStats is a homomorphism (agg_laws_ne);
+   2. combinators: a list of stats per group, pivot slots and output mapping preserve the laws; a pivot slot holds
+      the fold over the rows with that pivot value;
+   3. every aggregate class satisfies the laws (X_hom) and its read-out is the textbook formula over the group's
+      non-null values (X_direct); moment aggregates over R (exact arithmetic), with the arithmetic of
+      update_moments / merge_moments regenerated from stat_counter.py into PV.Gen.AggMoments.
+   Open finding (model reproduces it): Last without ignore_nulls has no right unit, so it is lawful for
+   groupBy / rollup / cube (C14_last_hom_partial) but not under pivot (C14_last_pivot_refuted). *)
+From Coq Require Import ZArith List Bool Reals Permutation.
+Require Import PV.Base.Num PV.Base.NumR PV.Base.NumSqrt PV.Gen.AggMoments.
+Require Import PV.Model.Agg PV.Proofs.AggGrouped PV.Proofs.AggInstances PV.Proofs.AggMoments PV.Proofs.AggSubtotals.
 Import ListNotations.
 
-(* Generic driver (GroupedStats.merge / mergeStats under RDD.aggregate), for EVERY list of partitions -- any number,
-   empty ones included -- every key type with a correct equality and every aggregator whose mergeStats agrees with
-   folding the concatenated rows on non-empty row lists:
-   the groups come out in first-seen order of the concatenated partitions, and each group's state is equivalent to
-   the fold of the aggregator over that group's own rows. *)
+(** * 1. the partition driver *)
+
+(* any number of partitions, empty ones included; any key type with a correct equality *)
 Theorem C14_aggregate_hom :
   forall (Row K S O : Type) (keqb : K -> K -> bool) (key : Row -> K) (A : aggregator Row S O),
     (forall a b, keqb a b = true <-> a = b) ->
@@ -17,3 +27,290 @@ Theorem C14_aggregate_hom :
       Forall2 (fun g h => fst g = fst h /\ eqS (snd g) (snd h))
               (g_aggregate keqb key A ps) (g_spec keqb key A (concat ps)).
 Proof. exact aggregate_hom. Qed.
+
+(* one row per distinct key combination (null being a key value like any other), in first-seen order *)
+Theorem C14_one_row_per_key :
+  forall (Row K S O : Type) (keqb : K -> K -> bool) (key : Row -> K) (A : aggregator Row S O),
+    (forall a b, keqb a b = true <-> a = b) ->
+    forall ps : list (list Row),
+      map fst (g_aggregate keqb key A ps) = first_keys keqb (map key (concat ps))
+      /\ NoDup (first_keys keqb (map key (concat ps)))
+      /\ (forall k, In k (first_keys keqb (map key (concat ps))) <-> In k (map key (concat ps))).
+Proof. exact keys_aggregate_full. Qed.
+
+(* the evaluated rows: each group's output is out (fold step init rows_of_group) *)
+Theorem C14_result_hom :
+  forall (Row K S O : Type) (keqb : K -> K -> bool) (key : Row -> K) (A : aggregator Row S O),
+    (forall a b, keqb a b = true <-> a = b) ->
+    forall (eqS : S -> S -> Prop) (eqO : O -> O -> Prop), agg_laws_ne A eqS eqO ->
+    forall ps : list (list Row),
+      Forall2 (fun g h => fst g = fst h /\ eqO (snd g) (snd h))
+              (g_result A (g_aggregate keqb key A ps)) (g_result A (g_spec keqb key A (concat ps))).
+Proof. exact result_hom. Qed.
+
+(* exact aggregators: the rows are literally those of the reference, hence of the single partition *)
+Theorem C14_partition_independent_exact :
+  forall (Row K S O : Type) (keqb : K -> K -> bool) (key : Row -> K) (A : aggregator Row S O),
+    (forall a b, keqb a b = true <-> a = b) -> agg_laws_ne A eq eq ->
+    forall ps : list (list Row),
+      g_result A (g_aggregate keqb key A ps) = g_result A (g_aggregate keqb key A [concat ps]).
+Proof. exact partition_independent_exact. Qed.
+
+(** * 2. combinators *)
+Theorem C14_stats_list_hom :
+  forall Row O (l : list (lawful Row O)),
+    (forall w, In w l -> agg_laws_ne (p_agg (lw_p w)) (lw_eqS w) (lw_eqO w)) ->
+    agg_laws_ne (agg_all (map (@lw_p Row O) l)) (all_eqS l) (all_eqO l).
+Proof. exact laws_ne_all. Qed.
+
+(* every stat of the list sees exactly what it would see alone *)
+Theorem C14_stats_list_direct :
+  forall Row O (l : list (packed Row O)) rows,
+    a_out (agg_all l) (a_fold (agg_all l) rows) = map (fun p => a_out (p_agg p) (a_fold (p_agg p) rows)) l.
+Proof. exact out_all. Qed.
+
+(* pivot_spec: the slot of pivot value p is the fold over the group's rows whose pivot column equals p ... *)
+Theorem C14_pivot_spec :
+  forall (Row P S O : Type) (peqb : P -> P -> bool) (pv_of : Row -> P) (A : aggregator Row S O) pvs rows,
+    a_fold (agg_pivot peqb pv_of pvs A) rows = map (fun p => a_fold A (filter (fun r => peqb (pv_of r) p) rows)) pvs.
+Proof. exact pivot_fold. Qed.
+
+(* ... and the pivoted aggregator is again lawful (needs the unit laws: slots can be empty in a partial) *)
+Theorem C14_pivot_hom :
+  forall (Row P S O : Type) (peqb : P -> P -> bool) (pv_of : Row -> P) (A : aggregator Row S O)
+         (eqS : S -> S -> Prop) (eqO : O -> O -> Prop),
+    agg_laws A eqS eqO -> forall pvs, agg_laws (agg_pivot peqb pv_of pvs A) (Forall2 eqS) (Forall2 eqO).
+Proof. exact laws_pivot. Qed.
+
+(** * 3. the aggregate classes *)
+
+(* collect_list: exact; the non-null values in row order *)
+Theorem C14_collect_list_hom : forall Row E (get : Row -> option E), agg_laws (collect_list_agg get) eq eq.
+Proof. exact collect_list_laws. Qed.
+Theorem C14_collect_list_direct :
+  forall Row E (get : Row -> option E) rows, a_fold (collect_list_agg get) rows = values_of get rows.
+Proof. exact collect_list_direct. Qed.
+
+(* collect_set / countDistinct / sumDistinct: the state is the duplicate-free list of the non-null values; two
+   states with the same elements are permutations of each other (set equality) *)
+Theorem C14_set_hom :
+  forall Row E O (eqb : E -> E -> bool) (get : Row -> option E) (outf : list E -> O),
+    (forall a b, eqb a b = true <-> a = b) -> agg_laws (set_agg eqb get outf) eq eq.
+Proof. exact set_laws. Qed.
+Theorem C14_set_direct :
+  forall Row E O (eqb : E -> E -> bool) (get : Row -> option E) (outf : list E -> O),
+    (forall a b, eqb a b = true <-> a = b) ->
+    forall rows, NoDup (a_fold (set_agg eqb get outf) rows)
+                 /\ forall x, In x (a_fold (set_agg eqb get outf) rows) <-> In x (values_of get rows).
+Proof. exact set_direct_full. Qed.
+Theorem C14_set_up_to_set_equality :
+  forall Row E O (eqb : E -> E -> bool) (get : Row -> option E) (outf : list E -> O),
+    (forall a b, eqb a b = true <-> a = b) ->
+    forall rows rows', (forall x, In x (values_of get rows) <-> In x (values_of get rows')) ->
+      Permutation (a_fold (set_agg eqb get outf) rows) (a_fold (set_agg eqb get outf) rows').
+Proof. exact set_states_perm. Qed.
+
+(* first (with and without ignore_nulls): exact, full laws *)
+Theorem C14_first_hom :
+  forall (Ops : NumOps) Row (get : Row -> @cell Ops) ign, agg_laws (first_agg get ign) eq eq.
+Proof. exact @first_laws. Qed.
+Theorem C14_first_direct :
+  forall (Ops : NumOps) Row (get : Row -> @cell Ops) ign rows,
+    a_out (first_agg get ign) (a_fold (first_agg get ign) rows) = first_direct get ign rows.
+Proof. exact @first_out_direct. Qed.
+
+(* last *)
+Definition C14_last_hom_full : Prop :=
+  forall (Ops : NumOps) Row (get : Row -> @cell Ops) ign, agg_laws (last_agg get ign) eq eq.
+(* proved: the homomorphism on non-empty row lists (all that groupBy / rollup / cube merge) for both flags, and the
+   full laws with ignore_nulls; missing for ignore_nulls = false: a fresh copy is not a right unit of mergeStats *)
+Theorem C14_last_hom_partial :
+  forall (Ops : NumOps) Row (get : Row -> @cell Ops),
+    (forall ign, agg_laws_ne (last_agg get ign) eq eq) /\ agg_laws (last_agg get true) eq eq.
+Proof. exact @last_laws_partial. Qed.
+Theorem C14_last_pivot_refuted : ~ C14_last_hom_full.
+Proof. exact last_hom_full_refuted. Qed.
+Theorem C14_last_direct :
+  forall (Ops : NumOps) Row (get : Row -> @cell Ops) ign rows,
+    a_out (last_agg get ign) (a_fold (last_agg get ign) rows) = last_direct get ign rows.
+Proof. exact @last_out_direct. Qed.
+
+(* count / sum / avg / min / max / variance / stddev / skewness / kurtosis: ColumnStatHelper over R.
+   The state after ANY rows is a function of the list of non-null values; mergeStats of two states is the state of
+   the concatenation -- exactly, including sides that saw no non-null value. *)
+Theorem C14_stat_state :
+  forall Row O (getn : Row -> option (@num ROps)) (outf : @csh ROps -> O) rows,
+    a_fold (stat_agg (get_of _ getn) outf) rows = csh_of (nums_of _ getn rows).
+Proof. exact stat_fold. Qed.
+Theorem C14_stat_hom :
+  forall Row O (getn : Row -> option (@num ROps)) (outf : @csh ROps -> O),
+    agg_laws (stat_agg (get_of _ getn) outf) eq eq.
+Proof. exact stat_laws. Qed.
+Theorem C14_mergeStats_concat :
+  forall xs ys : list (@num ROps), csh_merge (csh_of xs) (csh_of ys) = csh_of (xs ++ ys).
+Proof. exact csh_merge_of. Qed.
+
+(* the moment fields are the textbook central sums: sum of (x - mean)^k, k = 2, 3, 4 (definition of csh_of);
+   the regenerated kernels maintain them: *)
+Theorem C14_update_moments_central :
+  forall (l : list R) (x : R), l <> [] ->
+    @csh_update_moments ROps (Z.of_nat (length l)) (rmean l) (cm 2 l) (cm 3 l) (cm 4 l) x =
+    (cm 2 (l ++ [x]), cm 3 (l ++ [x]), cm 4 (l ++ [x])).
+Proof. exact cm_snoc_pos. Qed.
+Theorem C14_merge_moments_central :
+  forall l1 l2 : list R, l1 <> [] -> l2 <> [] ->
+    @csh_merge_moments ROps (Z.of_nat (length l1)) (rmean l1) (cm 2 l1) (cm 3 l1) (cm 4 l1)
+                            (Z.of_nat (length l2)) (rmean l2) (cm 2 l2) (cm 3 l2) (cm 4 l2) =
+    (cm 2 (l1 ++ l2), cm 3 (l1 ++ l2), cm 4 (l1 ++ l2)).
+Proof. exact cm_app. Qed.
+
+(* X_direct: read-outs of the state of the values xs (l = their real values, n = their number) *)
+Theorem C14_count_direct : forall xs, csh_count (csh_of xs) = CNum (NI (Z.of_nat (length xs))).
+Proof. exact count_direct. Qed.
+Theorem C14_sum_direct :
+  forall xs, (xs = [] -> csh_sum (csh_of xs) = CNull) /\
+             (xs <> [] -> exists s, csh_sum (csh_of xs) = CNum s /\ num_F s = rsum (vals xs)).
+Proof. exact sum_direct_both. Qed.
+Theorem C14_avg_direct :
+  forall xs, xs <> [] -> csh_avg (csh_of xs) = cf (rsum (vals xs) / IZR (Z.of_nat (length xs))).
+Proof. exact avg_direct. Qed.
+Theorem C14_min_direct :
+  forall xs, xs <> [] ->
+    exists m, csh_min (csh_of xs) = CNum m /\ In m xs /\ forall v, In v xs -> (num_F m <= num_F v)%R.
+Proof. exact min_direct. Qed.
+Theorem C14_max_direct :
+  forall xs, xs <> [] ->
+    exists m, csh_max (csh_of xs) = CNum m /\ In m xs /\ forall v, In v xs -> (num_F v <= num_F m)%R.
+Proof. exact max_direct. Qed.
+Theorem C14_var_pop_direct :
+  forall xs, xs <> [] -> csh_var_pop (csh_of xs) = cf (cm 2 (vals xs) / IZR (Z.of_nat (length xs))).
+Proof. exact var_pop_direct. Qed.
+Theorem C14_var_samp_direct :
+  forall xs, (2 <= length xs)%nat ->
+    csh_var_samp (csh_of xs) = cf (cm 2 (vals xs) / (IZR (Z.of_nat (length xs)) - 1)).
+Proof. exact var_samp_direct. Qed.
+Theorem C14_stddev_pop_direct :
+  forall xs, xs <> [] -> csh_std_pop (csh_of xs) = cf (sqrt (cm 2 (vals xs) / IZR (Z.of_nat (length xs)))).
+Proof. exact std_pop_direct. Qed.
+Theorem C14_stddev_samp_direct :
+  forall xs, (2 <= length xs)%nat ->
+    csh_std_samp (csh_of xs) = cf (sqrt (cm 2 (vals xs) / (IZR (Z.of_nat (length xs)) - 1))).
+Proof. exact std_samp_direct. Qed.
+Theorem C14_skewness_direct :
+  forall xs, xs <> [] -> cm 2 (vals xs) <> 0%R ->
+    csh_skew (csh_of xs) =
+    cf (sqrt (IZR (Z.of_nat (length xs))) * cm 3 (vals xs) / sqrt (cm 2 (vals xs) * cm 2 (vals xs) * cm 2 (vals xs))).
+Proof. exact skew_direct. Qed.
+Theorem C14_kurtosis_direct :
+  forall xs, xs <> [] -> cm 2 (vals xs) <> 0%R ->
+    csh_kurt (csh_of xs) =
+    cf (IZR (Z.of_nat (length xs)) * cm 4 (vals xs) / (cm 2 (vals xs) * cm 2 (vals xs)) - 3).
+Proof. exact kurt_direct. Qed.
+
+(* describe_agree: describe()/summary() read the very same states: one ColumnStatHelper per column under the same
+   driver with a constant key, so count / mean / stddev / min / max of describe are the read-outs count / avg /
+   stddev_samp / min / max of the whole-table group *)
+Theorem C14_describe_agree :
+  forall (Ops : NumOps) (Q : NumSqrt Ops) (cols : list nat) (parts : list (list (@row Ops))),
+    run_describe cols parts =
+    (let hs := match g_result (describe_stats cols)
+                             (g_aggregate (fun _ _ : unit => true) (fun _ => tt) (describe_stats cols) parts) with
+              | (_, l) :: _ => l | [] => [] end in
+     [map csh_count hs; map csh_avg hs; map csh_stddev hs; map csh_min hs; map csh_max hs])
+    /\ forall s : @csh Ops, csh_stddev s = csh_std_samp s.
+Proof. exact @describe_agree. Qed.
+
+(** * 4. rollup / cube *)
+
+(* exactly the subtotal rows: the keys of the result are the distinct subtotal keys of the groups, first-seen *)
+Theorem C14_subtotal_keys :
+  forall (Row K S O : Type) (keqb : K -> K -> bool) (A : aggregator Row S O)
+         (subkeys : K -> list K) (gs : list (K * S)),
+      map fst (g_subtotals keqb A subkeys gs) = first_keys keqb (flat_map subkeys (map fst gs)).
+Proof. exact subtotal_keys. Qed.
+
+(* each subtotal state is the merge, in group order, of the states of the groups that contribute to it *)
+Theorem C14_subtotal_state :
+  forall (Row K S O : Type) (keqb : K -> K -> bool) (A : aggregator Row S O),
+    (forall a b, keqb a b = true <-> a = b) ->
+    forall (subkeys : K -> list K) (gs : list (K * S)) (sk : K),
+      g_find keqb sk (g_subtotals keqb A subkeys gs) =
+      match contributions keqb subkeys sk gs with
+      | [] => None
+      | s :: ss => Some (fold_left (a_merge A) ss s)
+      end.
+Proof. exact subtotal_find. Qed.
+
+(* rollup_spec / cube_spec: for every partitioning, the state of subtotal key sk is equivalent to the fold over
+   the rows of the contributing groups (group after group, in first-seen group order) *)
+Theorem C14_subtotal_spec :
+  forall (Row K S O : Type) (keqb : K -> K -> bool) (key : Row -> K) (A : aggregator Row S O),
+    (forall a b, keqb a b = true <-> a = b) ->
+    forall (subkeys : K -> list K) (eqS : S -> S -> Prop) (eqO : O -> O -> Prop), agg_laws_ne A eqS eqO ->
+    forall (ps : list (list Row)) (sk : K),
+      (forall r, In r (concat ps) -> NoDup (subkeys (key r))) ->
+      In sk (flat_map subkeys (map key (concat ps))) ->
+      exists s, g_find keqb sk (g_subtotals keqb A subkeys (g_aggregate keqb key A ps)) = Some s /\
+                eqS s (a_fold A (concat (map (fun k => rows_of keqb key k (concat ps))
+                                             (filter (fun k => key_mem keqb sk (subkeys k))
+                                                     (first_keys keqb (map key (concat ps))))))).
+Proof. exact subtotal_spec. Qed.
+
+(* ... which is a permutation of the rows whose key has sk among its subtotal keys: for aggregates that do not
+   depend on the row order the subtotal equals grouping by the corresponding key subset *)
+Theorem C14_subtotal_rows :
+  forall (Row K : Type) (keqb : K -> K -> bool) (key : Row -> K),
+    (forall a b, keqb a b = true <-> a = b) ->
+    forall (Q : K -> bool) (rows : list Row),
+      Permutation (concat (map (fun k => rows_of keqb key k rows) (filter Q (first_keys keqb (map key rows)))))
+                  (filter (fun r => Q (key r)) rows).
+Proof. exact group_blocks_perm. Qed.
+
+(* which keys are subtotal keys of a group key: rollup replaces a suffix, cube any subset of positions *)
+Theorem C14_rollup_keys :
+  forall (Ops : NumOps) (k sk : @gkey Ops),
+    In sk (rollup_keys k) <-> exists i, (i <= length k)%nat /\ sk = firstn i k ++ repeat None (length k - i).
+Proof. exact @rollup_keys_spec. Qed.
+Theorem C14_cube_keys :
+  forall (Ops : NumOps) (k sk : @gkey Ops),
+    In sk (cube_keys k) <-> Forall2 (fun s x => s = None \/ s = x) sk k.
+Proof. exact @cube_keys_spec. Qed.
+
+(* the side condition of C14_subtotal_spec holds for groupBy / rollup / cube keys built from row values *)
+Theorem C14_subkeys_distinct :
+  forall (Ops : NumOps) (m : gmode) keycols (r : @row Ops), NoDup (subkeys m (key_of keycols r)).
+Proof. exact @subkeys_of_row_nodup. Qed.
+
+(** * non-vacuity and sanity: the model evaluated with floats on the inputs of the replays *)
+(* (closed by a VM cast: the kernel evaluates the model with the bytecode VM at Qed) *)
+Definition ex_row2 (k : Z) (v : option Z) : @row FloatOps :=
+  [CNum (NI k); match v with Some z => CNum (NI z) | None => CNull end].
+Definition ex_row3 (k : Z) (s : N) (v : Z) : @row FloatOps := [CNum (NI k); CStr [s]; CNum (NI v)].
+Definition ex_res (l : list (list (@cell FloatOps) * list (@oval FloatOps))) : list (@gkey FloatOps * list (@oval FloatOps)) :=
+  map (fun kr => (map Some (fst kr), snd kr)) l.
+
+Example ex_groupby_two_partitions :
+  (* sum / count of v for key 1 over partitions [(1,3)], [(1,null)] -- a partial that saw no non-null value *)
+  run_agg GroupBy [0%nat] None [(ASum, [1%nat]); (ACount, [1%nat])] [[ex_row2 1 (Some 3%Z)]; [ex_row2 1 None]]
+  = ex_res [([CNum (NI 1)], [OCell (CNum (NI 3)); OCell (CNum (NI 1))])].
+Proof. vm_cast_no_check (@eq_refl _ (ex_res [([CNum (NI 1)], [OCell (CNum (NI 3)); OCell (CNum (NI 1))])])). Qed.
+
+Example ex_last_pivot_defect_two_partitions :
+  (* the open finding: last(v) under pivot over two partitions yields null for slot "a" ... *)
+  run_agg GroupBy [0%nat] (Some (1%nat, Some [CStr [97%N]; CStr [98%N]])) [(ALast, [2%nat])]
+          [[ex_row3 1 97 3]; [ex_row3 1 98 4]]
+  = ex_res [([CNum (NI 1)], [OCell CNull; OCell (CNum (NI 4))])].
+Proof. vm_cast_no_check (@eq_refl _ (ex_res [([CNum (NI 1)], [OCell CNull; OCell (CNum (NI 4))])])). Qed.
+
+Example ex_last_pivot_defect_one_partition :
+  (* ... while the single partition gives 3 *)
+  run_agg GroupBy [0%nat] (Some (1%nat, Some [CStr [97%N]; CStr [98%N]])) [(ALast, [2%nat])]
+          [[ex_row3 1 97 3; ex_row3 1 98 4]]
+  = ex_res [([CNum (NI 1)], [OCell (CNum (NI 3)); OCell (CNum (NI 4))])].
+Proof. vm_cast_no_check (@eq_refl _ (ex_res [([CNum (NI 1)], [OCell (CNum (NI 3)); OCell (CNum (NI 4))])])). Qed.
+
+Example ex_laws_inhabited :
+  (* the hypotheses of the generic theorems are satisfiable: a concrete lawful list of stats over R *)
+  exists l : list (lawful (list (option (@num ROps))) (@cell ROps)),
+    length l = 2%nat /\ forall w, In w l -> agg_laws (p_agg (lw_p w)) (lw_eqS w) (lw_eqO w).
+Proof. exact laws_inhabited. Qed.
